@@ -387,7 +387,7 @@ def in_domain(case, key):
         return False
     # labels longer than err.c's tmpstr are outside the modelled domain (DESIGN C06: partial)
     h = case.targets[key[0]]
-    if len(h) >= LINEBUFSIZE or b"\0" in h:
+    if len(h) >= LINEBUFSIZE or any(b"\0" in t for t in case.targets):
         return False
     return True
 
@@ -439,14 +439,12 @@ def collect(case, answers):
 
 
 def spec_lines(case, per):
-    """one `rec` line per in-domain stream for `pdshmodel relay spec`"""
+    """one `rec` line per stream for `pdshmodel relay spec` (which also decides the domain)"""
     keys, lines = [], []
     for key in sorted(case.streams):
-        if not in_domain(case, key):
-            continue
         ems = per[key]
-        lines.append("rec %d %d %d %d %s %s %d %s" % (
-            case.labels, case.optK, key[0], len(case.targets), " ".join(hexs(t) for t in case.targets),
+        lines.append("rec %s %d %d %d %d %s %s %d %s" % (
+            key[1], case.labels, case.optK, key[0], len(case.targets), " ".join(hexs(t) for t in case.targets),
             hexs(case.payload(key)), len(ems), " ".join(hexs(e) for e in ems)))
         keys.append(key)
     return keys, lines
@@ -544,6 +542,19 @@ def evaluate(ctx, prop, cases, impl, cov, dist, flavour, engines=("index", "fifo
             i, s = key
             payload = c.payload(key)
             ems = per[key]
+            # Domain of the oracle = the property's stated domain (in_domain: no NUL, lines <= 128 KiB, no marker
+            # anywhere in a stdout stream, names shorter than LINEBUFSIZE).  The theorems' hypothesis Spec.Dom05,
+            # evaluated by the Lean-side validator, is weaker (the marker is excluded from complete lines only):
+            # every stream the oracle judges must satisfy it.
+            if in_domain(c, key) and f.get("dom") != "1":
+                ctx.disagreement("Relay/Spec.lean Dom05 rejects a stream of the stated domain", "verdict `%s`" % (
+                    v.split(" label=")[0]), c.to_json() if n < 60 else {"tags": sorted(c.tags)})
+            if f.get("dom") == "1" and not in_domain(c, key):
+                dist["dom05_only_streams"] = dist.get("dom05_only_streams", 0) + 1
+            if not in_domain(c, key):
+                dist["out_of_domain_streams"] = dist.get("out_of_domain_streams", 0) + 1
+                continue
+            dist["in_domain_streams"] = dist.get("in_domain_streams", 0) + 1
             # cross-check of the Lean spec by an independent rendering (guards the oracle itself)
             prefix = (py_label(c, i) + b": ") if c.labels else b""
             if f.get("label") != hexs(prefix) or (f.get("c05") == "ok") != (b"".join(ems) == py_render(prefix, payload)):
